@@ -255,6 +255,30 @@ def run_scenario(sc):
                     fails.append(("execution-timeout-early", "scenario %s: %.6f s early" % (json.dumps(sc), started + X - t_end)))
                 elif abs(t_end - (started + X)) > 1e-3:
                     fails.append(("execution-timeout-late", "scenario %s: ended at start%+.6f, expected start+%d" % (json.dumps(sc), t_end - started, X)))
+        elif kind == "execution-timeout-retry":
+            # the execution deadline passes while a failed Task is waiting out its Retry interval (nothing is in flight, no timer of a state is armed)
+            X, iv = sc["timeout"], sc["timeout"] + sc["extra"]
+            st = {"Type": "Task", "Resource": W.fn_arn("f"), "End": True, "Retry": [{"ErrorEquals": ["Boom"], "IntervalSeconds": iv, "MaxAttempts": 2, "BackoffRate": 1.0}]}
+            if sc.get("catch"):
+                st["Catch"] = [{"ErrorEquals": ["States.ALL"], "Next": "H"}]
+            definition = {"StartAt": "B", "TimeoutSeconds": X, "States": {"B": st, "H": {"Type": "Pass", "Result": "handled", "End": True}}}
+            w.create_state_machine("m", definition)
+            w.add_worker("f", lambda i, p, props: [(sc["fail_after"], {"errorType": "Boom", "errorMessage": "x"})] if i == 0 else [(0, {"ok": i})])
+            _, r = w.start_execution(arn_sm, {}, name="e")
+            arn = r["executionArn"]
+            started = w.clock.now
+            w.run()
+            t_end, detail = terminal_time(w, arn)
+            late_requests = [q for q in w.workers["f"].requests if q["t"] > started + X + 1e-3]
+            if t_end is None:
+                fails.append(("execution-never-completes", "scenario %s" % json.dumps(sc)))
+            elif detail["status"] != "FAILED" or detail.get("error") != "States.Timeout":
+                fails.append(("execution-timeout-outcome:retry-interval", "scenario %s: ended %s/%s at start%+.3f, expected FAILED/States.Timeout at start+%d" % (
+                    json.dumps(sc), detail["status"], detail.get("error"), t_end - started, X)))
+            elif abs(t_end - (started + X)) > 1e-3:
+                fails.append(("execution-timeout-late:retry-interval" if t_end > started + X else "execution-timeout-early", "scenario %s: ended at start%+.6f, expected start+%d" % (json.dumps(sc), t_end - started, X)))
+            if late_requests:
+                fails.append(("request-after-execution-deadline", "scenario %s: the task was requested again at start%+.3f, after the execution deadline" % (json.dumps(sc), late_requests[0]["t"] - started)))
         elif kind == "cancelled-wait":
             definition = {"StartAt": "P", "States": {"P": {"Type": "Parallel", "End": True, "Branches": [
                 {"StartAt": "W", "States": {"W": {"Type": "Wait", "Seconds": sc["seconds"], "End": True}}},
@@ -346,12 +370,14 @@ def engine_shard(k, seed, tier, examples=40):
                                      "late": st.sampled_from([0.5, 2]), "catch_only": st.booleans()})
     cw = st.fixed_dictionaries({"kind": st.just("cancelled-wait"), "tz": tz, "seconds": st.integers(3, 9), "fail_after": st.sampled_from([0, 0.5, 2])})
 
+    xt_retry = st.fixed_dictionaries({"kind": st.just("execution-timeout-retry"), "tz": tz, "timeout": st.integers(3, 8), "extra": st.sampled_from([2, 10, 100]), "fail_after": st.sampled_from([0, 1]),
+                                      "catch": st.booleans()})
     mapb = st.fixed_dictionaries({"kind": st.just("map-blocks"), "tz": tz, "items": st.integers(2, 4), "mc": st.sampled_from([0, 1, 1, 2]), "seconds": st.integers(2, 5),
                                   "inner": st.sampled_from(["wait", "task"]), "late": st.sampled_from([0, 0, 3]), "selector": st.booleans()})
 
     @hypothesis.seed(seed)
     @settings(max_examples=examples, deadline=None, database=None, suppress_health_check=list(HealthCheck), phases=[Phase.generate])
-    @given(st.one_of(wait, wait, wait_crash, task, task, xt, xt_late, cw, mapb))
+    @given(st.one_of(wait, wait, wait_crash, task, task, xt, xt_late, cw, mapb, xt_retry))
     def run(sc):
         try:
             fails = run_scenario(sc)
